@@ -1,9 +1,575 @@
-/- C08 - model (stub: not built yet) -/
+/-
+C08 - model of trust policy statement selection
+(`verifier/trustpolicy/oci.go`, `blob.go`, `trustpolicy.go`, and the way `verifier.go` surfaces a
+selection error):
+
+* `artifactPath`  = `getArtifactPathFromReference` (text before the LAST '@', then
+  `validateRegistryScopeFormat`: the `*` pre-check, `strings.Cut` at the first '/', the two
+  regexes - written as syntax trees `domainRx` / `repositoryRx` whose rendering is proved equal
+  (`Props/C08.lean`, `source_ties`) to the regex texts extracted from the source into
+  `Generated/C08.lean`, and matched with Brzozowski derivatives);
+* `selectOCI`     = the loop of `OCIDocument.GetApplicableTrustPolicy` as coded (one pass, the
+  wildcard test first, later matches overwrite earlier ones, exact before wildcard at the end);
+* `selectBlob`, `selectGlobal` = the two blob selections (first match, early return);
+* a reference model of `clone`: a handed-out copy holds, for every reference-typed field, either
+  its own storage or an alias into the document, as dictated by the extracted facts
+  `Facts.ociCloneFields` / `Facts.blobCloneFields` / `Facts.sigVerificationCloneMakesMap`;
+  writes through a handed-out copy go wherever the cell points.
+
+Document validation is NOT modelled here (that is C09). What selection needs from validity is
+stated as the decidable predicate `WF` (unique scopes, a wildcard statement has no other scope,
+unique names, at most one global statement).
+-/
 import NotationModel.Basic
+import NotationModel.Generated.Skeletons
+import NotationModel.Generated.C08
 open Lean
 
 namespace NotationModel.C08
 
-def judge (_ : Json) : Except String Json := .error "C08: model not built yet"
+/-! ### the two regular expressions of `validateRegistryScopeFormat` -/
+
+/-- syntax of the RE2 subset the two regexes use (`none`/`eps` only arise in derivatives) -/
+inductive Rx
+  | none                                  -- matches nothing
+  | eps                                   -- matches the empty text
+  | ch (c : Char)                         -- a literal, printed as is
+  | esc (c : Char)                        -- a literal, printed with a backslash
+  | cls (items : List (Char × Char))      -- `[a-zA-Z0-9-]`: (a,b) printed `a-b`, (a,a) printed `a`
+  | seq (l r : Rx)
+  | alt (l r : Rx)                        -- `l|r`
+  | grp (r : Rx)                          -- `(?:r)`
+  | star (r : Rx)
+  | plus (r : Rx)
+  | opt (r : Rx)
+  deriving DecidableEq, Repr
+
+namespace Rx
+
+/-- the regex text (without the anchors) -/
+def render : Rx → List Char
+  | none => ['∅']
+  | eps => []
+  | ch c => [c]
+  | esc c => ['\\', c]
+  | cls items => '[' :: (items.flatMap (fun p => if p.1 = p.2 then [p.1] else [p.1, '-', p.2]) ++ [']'])
+  | seq l r => l.render ++ r.render
+  | alt l r => l.render ++ '|' :: r.render
+  | grp r => '(' :: '?' :: ':' :: (r.render ++ [')'])
+  | star r => r.render ++ ['*']
+  | plus r => r.render ++ ['+']
+  | opt r => r.render ++ ['?']
+
+def nullable : Rx → Bool
+  | none => false
+  | eps => true
+  | ch _ => false
+  | esc _ => false
+  | cls _ => false
+  | seq l r => l.nullable && r.nullable
+  | alt l r => l.nullable || r.nullable
+  | grp r => r.nullable
+  | star _ => true
+  | plus r => r.nullable
+  | opt _ => true
+
+def mkSeq : Rx → Rx → Rx
+  | none, _ => none
+  | _, none => none
+  | eps, r => r
+  | l, r => seq l r
+
+def mkAlt (l r : Rx) : Rx :=
+  match l, r with
+  | none, r => r
+  | l, none => l
+  | l, r => if l = r then l else alt l r
+
+/-- Brzozowski derivative -/
+def deriv (c : Char) : Rx → Rx
+  | none => none
+  | eps => none
+  | ch a => if a = c then eps else none
+  | esc a => if a = c then eps else none
+  | cls items => if items.any (fun p => p.1 ≤ c && c ≤ p.2) then eps else none
+  | seq l r => mkAlt (mkSeq (l.deriv c) r) (if l.nullable then r.deriv c else none)
+  | alt l r => mkAlt (l.deriv c) (r.deriv c)
+  | grp r => r.deriv c
+  | star r => mkSeq (r.deriv c) (star r)
+  | plus r => mkSeq (r.deriv c) (star r)
+  | opt r => r.deriv c
+
+/-- `regexp.MustCompile("^" + r + "$").MatchString(s)` -/
+def matchesAll (r : Rx) (s : List Char) : Bool := (s.foldl (fun r c => r.deriv c) r).nullable
+
+end Rx
+
+open Rx in
+/-- `[a-zA-Z0-9]|[a-zA-Z0-9][a-zA-Z0-9-]*[a-zA-Z0-9]` -/
+def domainLabel : Rx :=
+  let an := cls [('a','z'), ('A','Z'), ('0','9')]
+  alt an (seq an (seq (star (cls [('a','z'), ('A','Z'), ('0','9'), ('-','-')])) an))
+
+open Rx in
+def domainRx : Rx :=
+  seq (grp domainLabel)
+    (seq (opt (grp (plus (grp (seq (esc '.') (grp domainLabel))))))
+      (opt (grp (seq (ch ':') (plus (cls [('0','9')]))))))
+
+open Rx in
+/-- `[a-z0-9]+(?:(?:(?:[._]|__|[-]*)[a-z0-9]+)+)?` -/
+def repoComponent : Rx :=
+  let an := plus (cls [('a','z'), ('0','9')])
+  seq an (opt (grp (plus (grp (seq
+    (grp (alt (cls [('.','.'), ('_','_')]) (alt (seq (ch '_') (ch '_')) (star (cls [('-','-')])))))
+    an)))))
+
+open Rx in
+def repositoryRx : Rx :=
+  seq repoComponent (opt (grp (plus (grp (seq (ch '/') repoComponent)))))
+
+/-- the source text of a whole-string regex -/
+def regexText (r : Rx) : List Char := '^' :: (r.render ++ ['$'])
+
+/-! ### `validateRegistryScopeFormat` and `getArtifactPathFromReference` -/
+
+/-- `strings.Cut(s, sep)` for a one-character separator -/
+def cut (sep : Char) : List Char → Option (List Char × List Char)
+  | [] => none
+  | c :: r =>
+    if c = sep then some ([], r)
+    else match cut sep r with
+      | some (a, b) => some (c :: a, b)
+      | none => none
+
+/-- `validateRegistryScopeFormat(scope) == nil` -/
+def validFormat (scope : Text) : Bool :=
+  if scope.length > 1 && scope.contains '*' then false
+  else match cut '/' scope with
+    | none => false
+    | some (domain, repository) =>
+      !domain.isEmpty && !repository.isEmpty &&
+        domainRx.matchesAll domain && repositoryRx.matchesAll repository
+
+/-- text before the last occurrence of `sep` (`s[:strings.LastIndex(s, sep)]`), if any -/
+def beforeLast (sep : Char) : List Char → Option (List Char)
+  | [] => none
+  | c :: r =>
+    match beforeLast sep r with
+    | some p => some (c :: p)
+    | none => if c = sep then some [] else none
+
+/-- `getArtifactPathFromReference`: `none` = the reference is refused -/
+def artifactPath (ref : Text) : Option Text :=
+  match beforeLast '@' ref with
+  | none => none
+  | some p => if validFormat p then some p else none
+
+/-! ### documents and selection -/
+
+abbrev wildcard : Text := Facts.c08Wildcard
+
+/-- one policy statement; OCI statements have `isGlobal = false`, blob statements `scopes = []` -/
+structure Stmt where
+  name : Text
+  scopes : List Text                          -- registryScopes
+  isGlobal : Bool                             -- globalPolicy
+  level : String                              -- signatureVerification.level
+  override : Option (List (String × String))  -- signatureVerification.override sorted by key; none = nil map
+  stores : List Text                          -- trustStores
+  identities : List Text                      -- trustedIdentities
+  deriving DecidableEq, Repr, FromJson, ToJson
+
+inductive SelErr | invalidReference | noApplicablePolicy | emptyName
+  deriving DecidableEq, Repr
+
+/-- the loop of `OCIDocument.GetApplicableTrustPolicy`: `w` = wildcardPolicy, `a` = applicablePolicy -/
+def scan (path : Text) : List Stmt → Option Stmt → Option Stmt → Option Stmt × Option Stmt
+  | [], w, a => (w, a)
+  | s :: r, w, a =>
+    if s.scopes.contains wildcard then scan path r (some s) a
+    else if s.scopes.contains path then scan path r w (some s)
+    else scan path r w a
+
+def selectOCI (d : List Stmt) (ref : Text) : Except SelErr Stmt :=
+  match artifactPath ref with
+  | none => .error .invalidReference
+  | some path =>
+    match scan path d none none with
+    | (_, some a) => .ok a
+    | (some w, none) => .ok w
+    | (none, none) => .error .noApplicablePolicy
+
+/-- `unicode.IsSpace` (White_Space code points) -/
+def isSpace (c : Char) : Bool :=
+  let n := c.toNat
+  (0x09 ≤ n && n ≤ 0x0d) || n = 0x20 || n = 0x85 || n = 0xa0 || n = 0x1680 ||
+  (0x2000 ≤ n && n ≤ 0x200a) || n = 0x2028 || n = 0x2029 || n = 0x202f || n = 0x205f || n = 0x3000
+
+/-- `strings.TrimSpace(name) == ""` -/
+def isBlank (name : Text) : Bool := name.all isSpace
+
+def selectBlob (d : List Stmt) (name : Text) : Except SelErr Stmt :=
+  if isBlank name then .error .emptyName
+  else match d.find? (fun s => s.name == name) with
+    | some s => .ok s
+    | none => .error .noApplicablePolicy
+
+def selectGlobal (d : List Stmt) : Except SelErr Stmt :=
+  match d.find? (fun s => s.isGlobal) with
+  | some s => .ok s
+  | none => .error .noApplicablePolicy
+
+inductive Query | oci (ref : Text) | blob (name : Text) | global
+  deriving DecidableEq, Repr
+
+def Query.isBlob : Query → Bool
+  | .oci _ => false
+  | _ => true
+
+def selectQ (d : List Stmt) : Query → Except SelErr Stmt
+  | .oci ref => selectOCI d ref
+  | .blob name => selectBlob d name
+  | .global => selectGlobal d
+
+/-- what `verifier.VerifyBlob` selects: the global statement when no name is given -/
+def blobVerifyQuery (name : Text) : Query := if name = [] then .global else .blob name
+
+/-! ### reference model of `clone` and of writes through handed-out copies -/
+
+inductive SliceField | scopes | stores | identities
+  deriving DecidableEq, Repr
+
+def SliceField.goName : SliceField → String
+  | .scopes => "RegistryScopes"
+  | .stores => "TrustStores"
+  | .identities => "TrustedIdentities"
+
+def Stmt.get (s : Stmt) : SliceField → List Text
+  | .scopes => s.scopes
+  | .stores => s.stores
+  | .identities => s.identities
+
+def Stmt.set (s : Stmt) (f : SliceField) (v : List Text) : Stmt :=
+  match f with
+  | .scopes => { s with scopes := v }
+  | .stores => { s with stores := v }
+  | .identities => { s with identities := v }
+
+/-- a slice-typed field of a handed-out copy: own backing array, or the backing array of a
+field of the document's statement called `owner` -/
+inductive SliceCell | own (v : List Text) | shared (owner : Text) (f : SliceField)
+  deriving DecidableEq, Repr
+
+/-- the Override map of a handed-out copy -/
+inductive MapCell | own (v : Option (List (String × String))) | shared (owner : Text)
+  deriving DecidableEq, Repr
+
+structure Copy where
+  name : Text
+  level : String
+  isGlobal : Bool
+  scopes : SliceCell
+  stores : SliceCell
+  identities : SliceCell
+  override : MapCell
+  deriving DecidableEq, Repr
+
+def Copy.cell (c : Copy) : SliceField → SliceCell
+  | .scopes => c.scopes
+  | .stores => c.stores
+  | .identities => c.identities
+
+def Copy.setCell (c : Copy) (f : SliceField) (v : SliceCell) : Copy :=
+  match f with
+  | .scopes => { c with scopes := v }
+  | .stores => { c with stores := v }
+  | .identities => { c with identities := v }
+
+/-- the clone facts of the source tree -/
+structure CloneFacts where
+  oci : List (String × String)
+  blob : List (String × String)
+  makesMap : Bool
+
+def currentFacts : CloneFacts :=
+  ⟨Facts.ociCloneFields, Facts.blobCloneFields, Facts.sigVerificationCloneMakesMap⟩
+
+def aliasOf (tag : String) : Option SliceField :=
+  if tag = "copied:t.RegistryScopes" then some .scopes
+  else if tag = "copied:t.TrustStores" then some .stores
+  else if tag = "copied:t.TrustedIdentities" then some .identities
+  else none
+
+/-- how `clone` produces a slice field, by its extracted classification: a fresh slice with the
+same elements, the very slice of (some field of) the original, or - a field the literal does
+not set, or sets in a way the extractor does not know - the zero value -/
+def sliceCell (fields : List (String × String)) (s : Stmt) (f : SliceField) : SliceCell :=
+  match fields.lookup f.goName with
+  | some tag =>
+    if tag = "fresh-slice" then .own (s.get f)
+    else match aliasOf tag with
+      | some g => .shared s.name g
+      | none => .own []
+  | none => .own []
+
+def clone (F : CloneFacts) (blob : Bool) (s : Stmt) : Copy :=
+  let fields := if blob then F.blob else F.oci
+  let sv := fields.lookup "SignatureVerification"
+  { name := if fields.lookup "Name" = some "copied:t.Name" then s.name else []
+    level := if sv = some "deep-clone" ∨ sv = some "copied:t.SignatureVerification" then s.level else ""
+    isGlobal := if blob then (if fields.lookup "GlobalPolicy" = some "copied:t.GlobalPolicy" then s.isGlobal else false)
+                else s.isGlobal
+    scopes := if blob then .own s.scopes else sliceCell fields s .scopes
+    stores := sliceCell fields s .stores
+    identities := sliceCell fields s .identities
+    override :=
+      if sv = some "deep-clone" then (if F.makesMap then .own s.override else .shared s.name)
+      else if sv = some "copied:t.SignatureVerification" then .shared s.name
+      else .own Option.none }
+
+/-- every reference-typed field of the copy is freshly allocated and every value field copied -/
+def CloneFresh (fields : List (String × String)) (makesMap blob : Bool) : Bool :=
+  fields.lookup "Name" == some "copied:t.Name" &&
+  fields.lookup "SignatureVerification" == some "deep-clone" && makesMap &&
+  fields.lookup "TrustStores" == some "fresh-slice" &&
+  fields.lookup "TrustedIdentities" == some "fresh-slice" &&
+  (if blob then fields.lookup "GlobalPolicy" == some "copied:t.GlobalPolicy"
+   else fields.lookup "RegistryScopes" == some "fresh-slice")
+
+def CloneFacts.fresh (F : CloneFacts) : Bool :=
+  CloneFresh F.oci F.makesMap false && CloneFresh F.blob F.makesMap true
+
+/-- the document held by the verifier plus every copy handed out so far -/
+structure State where
+  doc : List Stmt
+  handles : List Copy
+  deriving Repr
+
+def owner (doc : List Stmt) (name : Text) : Option Stmt := doc.find? (fun s => s.name == name)
+
+def readSlice (doc : List Stmt) : SliceCell → List Text
+  | .own v => v
+  | .shared o f => match owner doc o with
+    | some s => s.get f
+    | none => []
+
+def readMap (doc : List Stmt) : MapCell → Option (List (String × String))
+  | .own v => v
+  | .shared o => match owner doc o with
+    | some s => s.override
+    | none => none
+
+/-- the contents a caller sees through a handed-out copy -/
+def Copy.read (doc : List Stmt) (c : Copy) : Stmt :=
+  { name := c.name, level := c.level, isGlobal := c.isGlobal,
+    scopes := readSlice doc c.scopes, stores := readSlice doc c.stores,
+    identities := readSlice doc c.identities, override := readMap doc c.override }
+
+inductive Op
+  | select (q : Query)                                         -- hands out a new copy (if any)
+  | writeSlice (h : Nat) (f : SliceField) (v : List Text)      -- overwrite the elements of a slice field of copy h
+  | writeMap (h : Nat) (v : List (String × String))            -- add / change / delete keys of the Override map of copy h
+  | writeScalars (h : Nat) (name : Text) (level : String) (g : Bool)
+  deriving Repr
+
+def updateOwner (doc : List Stmt) (name : Text) (f : Stmt → Stmt) : List Stmt :=
+  doc.map (fun s => if s.name == name then f s else s)
+
+def step (F : CloneFacts) (st : State) : Op → State
+  | .select q =>
+    match selectQ st.doc q with
+    | .ok s => { st with handles := st.handles ++ [clone F q.isBlob s] }
+    | .error _ => st
+  | .writeSlice h f v =>
+    match st.handles[h]? with
+    | none => st
+    | some c =>
+      match c.cell f with
+      | .own _ => { st with handles := st.handles.set h (c.setCell f (.own v)) }
+      | .shared o g => { st with doc := updateOwner st.doc o (fun s => s.set g v) }
+  | .writeMap h v =>
+    match st.handles[h]? with
+    | none => st
+    | some c =>
+      match c.override with
+      | .own _ => { st with handles := st.handles.set h { c with override := .own (some v) } }
+      | .shared o =>
+        -- a nil map cannot be written to; a non-nil one is the document's own map
+        { st with doc := updateOwner st.doc o (fun s => { s with override := s.override.map (fun _ => v) }) }
+  | .writeScalars h name level g =>
+    match st.handles[h]? with
+    | none => st
+    | some c => { st with handles := st.handles.set h { c with name := name, level := level, isGlobal := g } }
+
+def exec (F : CloneFacts) (st : State) (ops : List Op) : State := ops.foldl (step F) st
+
+/-! ### the experiment the harness performs, per query -/
+
+inductive Kind | oci | blob
+  deriving DecidableEq, Repr, FromJson, ToJson
+
+structure Input where
+  kind : Kind
+  stmts : List Stmt
+  queries : List Text       -- oci: artifact references; blob: policy names
+  deriving Repr, FromJson, ToJson
+
+structure QObs where
+  selected : Option Text    -- name of the statement handed out by the document's selection; none = error
+  refRejected : Bool        -- oci: the reference is refused on its own (also by a wildcard-only document)
+  viaVerify : Text          -- through verifier.Verify / VerifyBlob: "stmt:<name>", "no-applicable-policy", "other"
+  viaSkip : Text            -- oci: through verifier.SkipVerify, same vocabulary; blob: ""
+  copyEqual : Bool          -- the handed-out contents equal a statement of the original document
+  intact : Bool             -- after mutating everything reachable from the copy, the same query returns the same contents
+  deriving DecidableEq, Repr, FromJson, ToJson
+
+structure Obs where
+  queries : List QObs
+  globalSel : Option QObs   -- blob: GetGlobalTrustPolicy() (viaVerify: VerifyBlob without a name); oci: none
+  deriving DecidableEq, Repr, FromJson, ToJson
+
+def mutated : Text := "x-mutated".toList
+
+/-- "mutate everything reachable" from copy `h` (whose cells are `c`) -/
+def scrambleOps (doc : List Stmt) (h : Nat) (c : Copy) : List Op :=
+  [ .writeSlice h .scopes ((readSlice doc c.scopes).map (fun _ => mutated)),
+    .writeSlice h .stores ((readSlice doc c.stores).map (fun _ => mutated)),
+    .writeSlice h .identities ((readSlice doc c.identities).map (fun _ => mutated)),
+    .writeMap h [("x-mutated", "x")],
+    .writeScalars h mutated "x-mutated" (!c.isGlobal) ]
+
+def stmtTag (name : Text) : Text := "stmt:".toList ++ name
+def noPolicy : Text := "no-applicable-policy".toList
+
+def classOf : Except SelErr Stmt → Text
+  | .ok s => stmtTag s.name
+  | .error _ => noPolicy        -- verifier.go wraps every selection error in ErrorNoApplicableTrustPolicy
+
+def mkQuery (k : Kind) (t : Text) : Query :=
+  match k with
+  | .oci => .oci t
+  | .blob => .blob t
+
+/-- select, mutate everything reachable from the handed-out copy, select again.
+`pristine` is the document as configured; `viaV`/`viaS` are computed on the verifier's own document. -/
+def runQuery (F : CloneFacts) (pristine : List Stmt) (st : State) (q : Query)
+    (refRejected : Bool) (viaV viaS : Text) : QObs × State :=
+  match selectQ st.doc q with
+  | .error _ =>
+    ({ selected := none, refRejected := refRejected, viaVerify := viaV, viaSkip := viaS,
+       copyEqual := true, intact := true }, st)
+  | .ok s =>
+    let c := clone F q.isBlob s
+    let h := st.handles.length
+    let st1 := step F st (.select q)
+    let got := c.read st1.doc
+    let st2 := exec F st1 (scrambleOps st1.doc h c)
+    let st3 := step F st2 (.select q)
+    let intact := match selectQ st2.doc q with
+      | .ok s2 => decide ((clone F q.isBlob s2).read st3.doc = got)
+      | .error _ => false
+    ({ selected := some got.name, refRejected := refRejected, viaVerify := viaV, viaSkip := viaS,
+       copyEqual := pristine.contains got, intact := intact }, st3)
+
+def runQueries (F : CloneFacts) (i : Input) : List Text → State → List QObs × State
+  | [], st => ([], st)
+  | t :: r, st =>
+    let q := mkQuery i.kind t
+    let (viaV, viaS, rej) := match i.kind with
+      | .oci => (classOf (selectOCI i.stmts t), classOf (selectOCI i.stmts t), (artifactPath t).isNone)
+      | .blob => (classOf (selectQ i.stmts (blobVerifyQuery t)), [], false)
+    let (o, st') := runQuery F i.stmts st q rej viaV viaS
+    let (os, st'') := runQueries F i r st'
+    (o :: os, st'')
+
+def runWith (F : CloneFacts) (i : Input) : Obs :=
+  let (qs, st) := runQueries F i i.queries { doc := i.stmts, handles := [] }
+  { queries := qs
+    globalSel := match i.kind with
+      | .oci => none
+      | .blob => some (runQuery F i.stmts st .global false (classOf (selectGlobal i.stmts)) []).1 }
+
+def run (i : Input) : Obs := runWith currentFacts i
+
+/-! ### specification -/
+
+/-- consequences of document validity (C09) that selection relies on -/
+def scopesUnique (d : List Stmt) : Bool :=
+  decide (d.flatMap (·.scopes)).Nodup && d.all (fun s => !s.scopes.contains wildcard || s.scopes == [wildcard])
+
+def namesUnique (d : List Stmt) : Bool := decide (d.map (·.name)).Nodup
+
+def oneGlobal (d : List Stmt) : Bool := (d.filter (·.isGlobal)).length ≤ 1
+
+def WF (i : Input) : Bool :=
+  match i.kind with
+  | .oci => scopesUnique i.stmts && namesUnique i.stmts
+  | .blob => namesUnique i.stmts && oneGlobal i.stmts
+
+/-- THE element of a list, when it has exactly one -/
+def the {α : Type} : List α → Option α
+  | [x] => some x
+  | _ => none
+
+/-- what the property says must be selected for a reference: the name of THE statement whose
+scopes contain exactly the repository path; failing that THE wildcard statement; else refusal.
+Independent of statement order by construction (`filter` + exactly-one). -/
+def expectedOCI (d : List Stmt) (ref : Text) : Option Text :=
+  match artifactPath ref with
+  | none => none
+  | some path =>
+    match d.filter (fun s => s.scopes.contains path) with
+    | [] => (the (d.filter (fun s => s.scopes.contains wildcard))).map (·.name)
+    | l => (the l).map (·.name)
+
+def expectedBlob (d : List Stmt) (name : Text) : Option Text :=
+  if isBlank name then none else (the (d.filter (fun s => s.name == name))).map (·.name)
+
+def expectedGlobal (d : List Stmt) : Option Text := (the (d.filter (·.isGlobal))).map (·.name)
+
+def expected (i : Input) (t : Text) : Option Text :=
+  match i.kind with
+  | .oci => expectedOCI i.stmts t
+  | .blob => expectedBlob i.stmts t
+
+/-- expected statement for the verifier entry points (VerifyBlob without a name = global) -/
+def expectedVia (i : Input) (t : Text) : Option Text :=
+  match i.kind with
+  | .oci => expectedOCI i.stmts t
+  | .blob => if t = [] then expectedGlobal i.stmts else expectedBlob i.stmts t
+
+def classOfExpected : Option Text → Text
+  | some n => stmtTag n
+  | none => noPolicy
+
+def forall₂ {α β : Type} (p : α → β → Bool) : List α → List β → Bool
+  | [], [] => true
+  | a :: as, b :: bs => p a b && forall₂ p as bs
+  | _, _ => false
+
+/-- the property over observables -/
+def clauses (i : Input) (o : Obs) : Clauses :=
+  [ ("selected_is_the_statement_scoped_to_the_repository_else_the_wildcard_else_refused",
+      forall₂ (fun t r => r.selected == expected i t) i.queries o.queries),
+    ("refused_reference_selects_nothing",
+      o.queries.all (fun r => !r.refRejected || r.selected.isNone)),
+    ("verifier_applies_the_same_statement_or_refuses_with_the_no_applicable_policy_error",
+      forall₂ (fun t r => r.viaVerify == classOfExpected (expectedVia i t) &&
+        (i.kind != .oci || r.viaSkip == classOfExpected (expectedVia i t))) i.queries o.queries),
+    ("global_statement_is_the_single_global_one",
+      match i.kind, o.globalSel with
+      | .oci, g => g.isNone
+      | .blob, some g => g.selected == expectedGlobal i.stmts &&
+          g.viaVerify == classOfExpected (expectedGlobal i.stmts)
+      | .blob, none => false),
+    ("handed_out_statement_equals_the_original",
+      o.queries.all (·.copyEqual) && (o.globalSel.map (·.copyEqual)).getD true),
+    ("mutating_a_handed_out_copy_does_not_affect_later_selections",
+      o.queries.all (·.intact) && (o.globalSel.map (·.intact)).getD true) ]
+
+def Holds (i : Input) (o : Obs) : Bool := (clauses i o).holds
+
+def judge := judgeWith run clauses
 
 end NotationModel.C08
